@@ -185,6 +185,7 @@ class ModelDriver:
                 m.solver = op["solver"]
             self.models[s] = m
             self.ctx_ids[s] = []
+            self.detached[s] = {}
             return None
         model = self.models.get(s)
         if a == "LoadDoc":
@@ -192,6 +193,7 @@ class ModelDriver:
             if getattr(self, "doc", None) is None or (model is not None and model._contexts):
                 raise Skip("no saved document")
             self.models[s] = model_io.load(self, *self.doc)
+            self.detached[s] = {}
             return None
         if model is None:
             raise Skip("no model in slot")
@@ -211,6 +213,7 @@ class ModelDriver:
         if a == "Copy":
             t = op["t"]
             self.ctx_ids[t] = []
+            self.detached[t] = {}
             if op["kind"] == "copy":
                 self.models[t] = model.copy()
             elif op["kind"] == "deepcopy":
@@ -223,6 +226,19 @@ class ModelDriver:
             if model is None:
                 raise Skip("no model")
             self.doc = (op["fmt"], model_io.save(self, model, op["fmt"]))
+            return None
+        if a == "AddArith":
+            target = self.models.get(op["t"])
+            if model is None or target is None:
+                raise Skip("no model")
+            rxn = self.get_rxn(model, op["r"])
+            q = self.get_rxn(model, op["q"])
+            if self.rx[op["new"]] in target.reactions:
+                raise Skip("id exists in the target model")
+            kind = op["kind"]
+            res = rxn.copy() if kind == "copy" else (rxn + q if kind == "add" else (rxn - q if kind == "sub" else rxn * op["k"]))
+            res.id = self.rx[op["new"]]
+            target.add_reactions([res])
             return None
         if a == "Merge":
             right = self.models.get(op["t"])
@@ -283,7 +299,9 @@ class ModelDriver:
                     continue
                 if self.met[m] in model.metabolites:
                     mo = model.metabolites.get_by_id(self.met[m])
-                    d[mo if op.get("form", 0) == 0 else self.met[m]] = k
+                    form = op.get("form", 0)
+                    # key shapes: the model's own object, its id, or ANOTHER object carrying that id
+                    d[mo if form == 0 else (self.met[m] if form == 1 else self.new_met(m))] = k
                 else:
                     d[self.new_met(m)] = k
             if a == "RxnAddMetabolites":
@@ -355,6 +373,12 @@ class ModelDriver:
                            "tt": [1 if res.gpr.eval(ks) else 0 for ks in subsets],
                            "genes": sorted(self.rgene.get(g.id, "?" + g.id) for g in res.genes),
                            "detached": bool(res.model is None and res is not rxn and not shared and not inexact)}}
+        if a == "ReAddDetached":
+            robj = self.detached[s].get(op["r"])
+            if robj is None or self.rx[op["r"]] in model.reactions or robj.model is not None:
+                raise Skip("no detached reaction object with that id")
+            model.add_reactions([robj])
+            return None
         if a == "DetachedSetBounds":
             robj = self.detached[s].get(op["r"])
             if robj is None or self.rx[op["r"]] in model.reactions or robj.model is not None:
@@ -528,6 +552,7 @@ class ModelDriver:
             if fmt == "sbml_freplace_off" and not self.pal.get("sids", False):
                 fmt = "sbml"        # without id replacement the ids must be valid SBML SIds
             self.models[s] = model_io.round_trip(self, model, fmt)
+            self.detached[s] = {}
             return None
         if a == "Analyze":
             from . import model_analyses
